@@ -113,6 +113,23 @@ impl ThreadPoolBuilder {
         self
     }
 
+    // the rest of the builder's surface is accepted and has no effect on simulated workers
+
+    pub fn stack_size(self, _bytes: usize) -> Self {
+        self
+    }
+
+    pub fn thread_name<F>(self, _f: F) -> Self
+    where
+        F: FnMut(usize) -> String + 'static,
+    {
+        self
+    }
+
+    pub fn breadth_first(self) -> Self {
+        self
+    }
+
     pub fn build(self) -> Result<ThreadPool, ThreadPoolBuildError> {
         STATE.with(|s| {
             let mut s = s.borrow_mut();
